@@ -421,6 +421,7 @@ class Plugin:
         cfg['base_opts'] = {'norm': True}
         cfg['opt_rate'] = rng.choice([0.0, 0.3, 0.6])
         cfg['p_same_cat'] = rng.choice([0.7, 0.85, 0.95])
+        cfg['p_edge'] = rng.choice([0.0, 0.0, 0.1, 0.3])  # edits of a first/last element whose neighbour is on another line
         if rng.random() < 0.5:  # swarm: half of the runs use a random re-weighting of the edit kinds (some switched off)
             from .ops import DEFAULT_WEIGHTS
             w = {k: v * rng.choice([0, 0, 1, 1, 4]) for k, v in sorted(DEFAULT_WEIGHTS.items())}
